@@ -601,8 +601,55 @@ def inline_local_functions(tree):
     return count
 
 
+_LOG_METHODS = {"debug", "info", "warning", "warn", "error", "exception",
+                "critical", "log"}
+
+
+def strip_logging(trees):
+    """Statements that only emit a log record through the standard logging
+    module (a module-level `X = logging.getLogger(...)` or `logging.debug`
+    itself) are noise for every rule: removed.  -> count"""
+    count = 0
+    for tree in trees.values():
+        loggers = {"logging"} if any(
+            isinstance(st, ast.Import) and any(a.name == "logging"
+                                               for a in st.names)
+            for st in tree.body) else set()
+        for st in tree.body:
+            if isinstance(st, ast.Assign) and len(st.targets) == 1 and \
+                    isinstance(st.targets[0], ast.Name) and isinstance(
+                        st.value, ast.Call) and ast.unparse(
+                            st.value.func) in ("logging.getLogger",
+                                               "getLogger"):
+                loggers.add(st.targets[0].id)
+        if not loggers:
+            continue
+        for n in ast.walk(tree):
+            for fld in ("body", "orelse", "finalbody"):
+                blk = getattr(n, fld, None)
+                if not (isinstance(blk, list) and blk and isinstance(
+                        blk[0], ast.stmt)):
+                    continue
+                keep = []
+                for st in blk:
+                    v = getattr(st, "value", None)
+                    if isinstance(st, ast.Expr) and isinstance(
+                            v, ast.Call) and isinstance(
+                                v.func, ast.Attribute) and isinstance(
+                                    v.func.value, ast.Name) and \
+                            v.func.value.id in loggers and \
+                            v.func.attr in _LOG_METHODS:
+                        count += 1
+                        continue
+                    keep.append(st)
+                if len(keep) != len(blk):
+                    blk[:] = keep or [ast.Pass()]
+    return count
+
+
 def inline_trees(trees):
     """trees: {module: ast.Module}. Mutates the trees. -> report dict."""
+    strip_logging(trees)
     local = 0
     for tree in trees.values():
         local += inline_local_functions(tree)
